@@ -422,6 +422,7 @@ func groupRecursionWitness(s *sink, g *hx.Gen) {
 		return
 	}
 	s.stats["witness:done"]++
+	groupNaNKeys(s)
 	t := &hx.Ty{T: "scope", Root: "A", Objs: []hx.NamedObj{{ID: "A", Ty: &hx.Ty{T: "obj", ID: "A",
 		Props: []hx.NamedProp{{Name: "next", P: &hx.Prop{Ty: &hx.Ty{T: "ref", ID: "A"}}}}}}}}
 	for _, v := range []*hx.Val{hx.Int("int64", 5), hx.Str("x"), hx.Nil()} {
@@ -440,6 +441,37 @@ func groupRecursionWitness(s *sink, g *hx.Gen) {
 					Cases: []int{c.ID}, Schema: t, Input: v, Detail: []string{"single-property-self-reference-shorthand", res.Msg}})
 				s.finding(Finding{Prop: "C14", What: "self-referential object graph does not work on a finite input: single-property object referring to itself, non-map input (shorthand recursion)",
 					Cases: []int{c.ID}, Schema: t, Input: v, Detail: []string{"single-property-self-reference-shorthand", res.Msg}})
+			}
+		}
+	}
+}
+
+// groupNaNKeys: maps with NaN keys (reflect.Value.MapIndex cannot find them); fixed defect, kept as
+// a regression witness on every run. Differential, and a panic is a direct C04 finding.
+func groupNaNKeys(s *sink) {
+	nan := hx.F64(math.NaN())
+	one := hx.Int("int64", 1)
+	ms := []*hx.Val{
+		hx.AnyAny([2]*hx.Val{nan, one}),
+		hx.AnyAny([2]*hx.Val{nan, one}, [2]*hx.Val{hx.Str("a"), one}),
+	}
+	ts := []*hx.Ty{
+		{T: "map", K: &hx.Ty{T: "str"}, V: &hx.Ty{T: "any"}},
+		{T: "map", K: &hx.Ty{T: "int"}, V: &hx.Ty{T: "int"}},
+		{T: "any"},
+		{T: "list", Item: &hx.Ty{T: "any"}},
+	}
+	for _, t := range ts {
+		for _, m := range ms {
+			v := m
+			if t.T == "list" {
+				v = hx.List(m)
+			}
+			for _, op := range []string{"U", "V", "S", "C"} {
+				res, id, _ := s.emit(op, t, v, nil, false, "class", "nan-key")
+				if res.R == "panic" {
+					s.finding(Finding{Prop: "C04", What: "panic on a map with a NaN key", Cases: []int{id}, Schema: t, Input: v, Detail: []string{res.Msg}})
+				}
 			}
 		}
 	}
